@@ -698,6 +698,18 @@ fn gen_and_record<T: Sc>(mode: &str, count: usize, rng: &mut StdRng) -> Vec<RunO
                     base.cfg.patience = 5;
                 }
                 base.with_stats = !base.mrhs && i % 2 == 0;
+                if i % 3 == 1 {
+                    // a fit that succeeds, so that the statistics phase is really entered: certified
+                    // regime, single right hand side, default optimizer
+                    let mut j = i;
+                    base = exp_run::<T>(j, true, rng);
+                    while base.mrhs {
+                        j += 1;
+                        base = exp_run::<T>(j, true, rng);
+                    }
+                    base.cert = None;
+                    base.with_stats = true;
+                }
                 let (_m, p) = fam_shape(&base.fam);
                 // a caller driven history before the fit
                 let a1: Vec<T> = base.start.iter().map(|v| *v + T::of64(0.5)).collect();
